@@ -891,7 +891,10 @@ func (h adminHandler) checkHost(r *http.Request) error {
 // returns the origin that was obtained from r.
 func (h adminHandler) checkOrigin(r *http.Request) (string, error) {
 	originStr, origin := h.getOrigin(r)
-	if origin == nil {
+	// an absent header parses fine (as the empty URL), so it has to be
+	// rejected explicitly; otherwise it would match an allowed origin
+	// that has an empty host
+	if originStr == "" || origin == nil {
 		return "", APIError{
 			HTTPStatus: http.StatusForbidden,
 			Err:        fmt.Errorf("required Origin header is missing or invalid"),
